@@ -308,9 +308,22 @@ def ref_rotate(dim, ang):
     raise ValueError(dim)
 
 
+def ref_pad_angles(dim, ang):
+    """documented: too few angles are filled up with 0 (behind), surplus angles are ignored"""
+    n = dim * (dim - 1) // 2
+    a = [float(v) for v in np.atleast_1d(ang)][:n]
+    return a + [0.0] * (n - len(a))
+
+
+def ref_pad_anis(dim, anis):
+    """documented: too few ratios -> the first dimensions are filled up with 1 (anis=[e] in 3-D is [1, e])"""
+    a = [float(v) for v in np.atleast_1d(anis)][:max(dim - 1, 0)]
+    return [1.0] * (dim - 1 - len(a)) + a
+
+
 def ref_iso_matrix(dim, ang, anis):
-    s = np.concatenate(([1.0], np.asarray(anis, dtype=float)))
-    return np.diag(1.0 / s) @ ref_rotate(dim, ang).T
+    s = np.concatenate(([1.0], np.asarray(ref_pad_anis(dim, anis), dtype=float)))
+    return np.diag(1.0 / s) @ ref_rotate(dim, ref_pad_angles(dim, ang)).T
 
 
 def _viol(viol, key, what, case, **kw):
@@ -324,13 +337,19 @@ def search(ctx, deep=False):
 
     rng = np.random.RandomState(ctx.seed + 1201)
     viol, ev = [], 0
-    nmat = ctx.scale(300, 4000) * (3 if deep else 1)
+    nmat = ctx.scale(1200, 12000) * (3 if deep else 1)
     maxres = 0.0
     for t in range(nmat):
         dim = int(rng.randint(1, 5))
-        ang = gen_angles(rng, dim, allow_odd=False)
-        anis = gen_anis(rng, dim, allow_odd=False)
+        ang = gen_angles(rng, dim, allow_odd=(t % 4 == 0))
+        anis = gen_anis(rng, dim, allow_odd=(t % 4 == 0))
         case = {"dim": dim, "angles": ang, "anis": anis}
+        # padding rules against their documentation
+        if not (np.array_equal(G.set_angles(dim, ang), ref_pad_angles(dim, ang))
+                and np.array_equal(G.set_anis(dim, anis), ref_pad_anis(dim, anis))):
+            _viol(viol, "geometric:padding", "set_angles / set_anis do not pad as documented (angles behind with 0, anis in front with 1)", case)
+        ang_in, anis_in = ang, anis
+        ang, anis = ref_pad_angles(dim, ang), ref_pad_anis(dim, anis)
         R = G.matrix_rotate(dim, ang)
         D = G.matrix_derotate(dim, ang)
         I = np.eye(dim)
@@ -340,13 +359,14 @@ def search(ctx, deep=False):
         maxres = max(maxres, res)
         if not res <= 1e-13 * 50:
             _viol(viol, "geometric:rotate-not-special-orthogonal", "matrix_rotate/derotate not mutually inverse proper rotations", case, residual=float(res))
+        R = G.matrix_rotate(dim, ang_in)
         Rr = ref_rotate(dim, ang)
         if not np.abs(R - Rr).max() <= 1e-13 * 50:
             _viol(viol, "geometric:rotate-convention", "matrix_rotate differs from the documented convention "
                   "(2-D ccw, 3-D Rx(roll)Ry(pitch)Rz(yaw), n-D plane order with alternating signs)", case,
                   got=R.tolist(), want=Rr.tolist())
-        Mi = G.matrix_isometrize(dim, ang, anis)
-        Ma = G.matrix_anisometrize(dim, ang, anis)
+        Mi = G.matrix_isometrize(dim, ang_in, anis_in)
+        Ma = G.matrix_anisometrize(dim, ang_in, anis_in)
         sc = max(1.0, max(anis + [1.0]) / min(anis + [1.0]))
         r2 = max(np.abs(Mi @ Ma - I).max(), np.abs(Ma @ Mi - I).max())
         if not r2 <= 1e-13 * 50 * sc:
@@ -358,7 +378,27 @@ def search(ctx, deep=False):
             L = float(np.exp(rng.uniform(-1, 1)))
             with warnings.catch_warnings():
                 warnings.simplefilter("ignore")
-                model = gs.Exponential(dim=dim, var=2.0, len_scale=L, anis=anis if anis else 1.0, angles=ang if ang else 0.0)
+                model = gs.Exponential(dim=dim, var=2.0, len_scale=L, anis=anis_in if anis_in else 1.0,
+                                       angles=ang_in if ang_in else 0.0)
+                # a list of length scales is turned into ratios: len_scale_vec gives the list back (edge padded)
+                nl = int(rng.randint(2, dim + 2))
+                lsl = [float(v) for v in np.exp(rng.uniform(-1, 1, size=nl))]
+                ml = gs.Exponential(dim=dim, len_scale=lsl)
+            want_ls = (lsl + [lsl[-1]] * dim)[:dim] if nl < dim else lsl[:dim]
+            ev += 1
+            if not (np.allclose(ml.len_scale_vec, want_ls, rtol=1e-14, atol=0) and ml.len_scale == lsl[0]
+                    and np.allclose(ml.anis, np.array(want_ls[1:]) / lsl[0], rtol=1e-15, atol=0)):
+                _viol(viol, "covmodel:len_scale_list", "len_scale list is not turned into ratios len_scale[i]/len_scale[0]",
+                      {"dim": dim, "len_scale": lsl}, got=np.asarray(ml.len_scale_vec).tolist())
+            # non-positive ratios must be rejected
+            bad = [0.0, -0.5, float("nan")][t % 3]
+            if dim > 1:
+                ev += 1
+                try:
+                    gs.Exponential(dim=dim, anis=[bad] * (dim - 1))
+                    _viol(viol, "covmodel:anis-not-positive-accepted", "an anisotropy ratio <= 0 (or nan) was accepted", {"dim": dim, "anis": bad})
+                except ValueError:
+                    pass
             pos = rng.randn(dim, 6) * 4
             back = model.anisometrize(model.isometrize(pos))
             forth = model.isometrize(model.anisometrize(pos))
@@ -393,7 +433,7 @@ def search(ctx, deep=False):
                 _viol(viol, "covmodel:cov_spatial", "cov_spatial(h) != covariance(‖S⁻¹Rᵀh‖)", dict(case, h=h.tolist()))
 
     # ---------------- pipelines
-    npipe = ctx.scale(36, 400) * (2 if deep else 1)
+    npipe = ctx.scale(180, 1500) * (2 if deep else 1)
     models = [gs.Gaussian, gs.Exponential, gs.Matern, gs.Stable, gs.Spherical, gs.Linear, gs.Cubic, gs.Rational,
               gs.Circular, gs.HyperSpherical, gs.SuperSpherical, gs.JBessel, gs.TPLGaussian, gs.TPLExponential,
               gs.TPLStable, gs.TPLSimple, gs.Integral]
@@ -418,7 +458,7 @@ def search(ctx, deep=False):
         seed = int(rng.randint(1, 2**31 - 1))
         n = int(rng.randint(3, 12))
         pos = rng.randn(dim, n) * 3
-        ipos = ref_iso_matrix(dim, model.angles, model.anis) @ pos     # independent of model.isometrize
+        ipos = ref_iso_matrix(dim, ang, anis) @ pos     # independent of model.isometrize and of the padding code
         kind = ["srf", "srf_struct", "krige_simple", "krige_ordinary", "krige_universal", "krige_extdrift", "condsrf",
                 "vector", "fourier_modes"][t % 9]
         pipes[kind] = pipes.get(kind, 0) + 1
@@ -432,7 +472,7 @@ def search(ctx, deep=False):
                     ok = np.allclose(a, b, rtol=1e-9, atol=1e-9)
                     # independent evaluation of the randomization sum with transformed modes Mᵀk at the raw positions
                     g = gs.SRF(model, seed=seed, mode_no=64).generator
-                    kk = ref_iso_matrix(dim, model.angles, model.anis).T @ g._cov_sample
+                    kk = ref_iso_matrix(dim, ang, anis).T @ g._cov_sample
                     ph = kk.T @ pos
                     c = np.sqrt(model.var / g._mode_no) * (g._z_1 @ np.cos(ph) + g._z_2 @ np.sin(ph))
                     ok = ok and np.allclose(a, c, rtol=1e-8, atol=1e-8)
@@ -442,13 +482,13 @@ def search(ctx, deep=False):
                     axes = [np.sort(rng.randn(int(rng.randint(2, 4))) * 3) for _ in range(dim)]
                     a = gs.SRF(model, seed=seed, mode_no=48).structured(axes)
                     grid = np.array(np.meshgrid(*axes, indexing="ij")).reshape(dim, -1)
-                    b = gs.SRF(iso, seed=seed, mode_no=48)(ref_iso_matrix(dim, model.angles, model.anis) @ grid)
+                    b = gs.SRF(iso, seed=seed, mode_no=48)(ref_iso_matrix(dim, ang, anis) @ grid)
                     ev += 2
                     ok = np.allclose(np.ravel(a), b, rtol=1e-9, atol=1e-9)
                 elif kind.startswith("krige"):
                     val = rng.randn(n)
                     tgt = rng.randn(dim, 7) * 3
-                    itgt = ref_iso_matrix(dim, model.angles, model.anis) @ tgt
+                    itgt = ref_iso_matrix(dim, ang, anis) @ tgt
                     if kind == "krige_simple":
                         ka = gs.krige.Simple(model, pos, val, mean=0.3)
                         kb = gs.krige.Simple(iso, ipos, val, mean=0.3)
@@ -483,7 +523,7 @@ def search(ctx, deep=False):
                 elif kind == "condsrf":
                     val = rng.randn(n)
                     tgt = rng.randn(dim, 6) * 3
-                    itgt = ref_iso_matrix(dim, model.angles, model.anis) @ tgt
+                    itgt = ref_iso_matrix(dim, ang, anis) @ tgt
                     ca = gs.CondSRF(gs.krige.Ordinary(model, pos, val), seed=seed, mode_no=48)
                     cb = gs.CondSRF(gs.krige.Ordinary(iso, ipos, val), seed=seed, mode_no=48)
                     a, b = ca(tgt), cb(itgt)
